@@ -270,7 +270,7 @@ class Seam:
     def __init__(self, root, order_key=None, faults=None, mounts=None,
                  clock=None, virtual_root=False, step_cap=None,
                  read_chunks=None, stamp_writes=True, zero_size=None,
-                 default_dev=None, hook=None, order_alias=()):
+                 default_dev=None, hook=None, order_alias=(), patch_time=False):
         self.root = os.path.realpath(root)
         self.order_key = order_key
         self.faults = [dict(f) for f in (faults or [])]
@@ -287,6 +287,7 @@ class Seam:
         self.hook = hook                    # callable(seam, n, kind, rel) after each call
         self.default_dev = default_dev
         self.order_alias = tuple(order_alias)   # replica prefixes that share one enumeration order
+        self.patch_time = patch_time            # time.time() reads the simulated clock (gzip headers, ...)
         self.events = []
         self.n = 0
         self.op_n = 0
@@ -632,6 +633,10 @@ class Seam:
         builtins.open = self._open
         io.open = self._open
         _fcntl.fcntl = self._fcntl
+        if self.patch_time:
+            import time as _time
+            self._real_time = _time.time
+            _time.time = lambda: self.clock.now_ns / 1e9
         self.active = True
         return self
 
@@ -657,6 +662,9 @@ class Seam:
         builtins.open = _o['open']
         io.open = _o['io.open']
         _fcntl.fcntl = _o['fcntl']
+        if self.patch_time:
+            import time as _time
+            _time.time = self._real_time
         self._saved = None
         # descriptors leaked by the code under test (generators not closed...)
         for fd in list(self._fds):
